@@ -183,6 +183,17 @@ def make_run(W, shape, known_active=None):
                         ok = False
 
         phase("initial")
+        if shape.get("introspect"):
+            # looking at the function (its signature, its documentation, its listing of methods) is not a change of its methods
+            import inspect
+
+            try:
+                str(inspect.signature(ov.dispatch))
+                ov.dispatch.__signature__.parameters  # noqa: B018
+                ov.dispatch.__doc__  # noqa: B018
+            except Exception:  # noqa: BLE001
+                pass
+            phase("after inspect.signature / __doc__", warmup=False)
         if shape.get("derive"):
             # an unlinked copy is derived from the warm function and used (its first build locks the function it derives from):
             # not a change of the function's own methods
@@ -244,6 +255,7 @@ def gen_shapes(tier, seed):
         sh["linked"] = i % 4 == 3
         sh["wide"] = i % 8 == 1
         sh["derive"] = i % 4 == 2
+        sh["introspect"] = i % 4 == 0
     return out, total, True
 
 
@@ -267,7 +279,7 @@ def main(tier, seed):
         bounds=dict(classes=3, methods="3 (+1 registered after the first phase)", positions=1,
                     annotations="harness classes, object, two class_check(predicate) types, Dependent[class_check(predicate), condition], one user type with __type_order__/__is_supertype__ hooks",
                     bodies="return | call_next(x) | recurse(other) | call_next(other)", calls="warm-up of K0, K1, object(); then each again; register; both phases again; every 4th method set: the calls go to a linkback copy, "
-                    "whose parent is used for the first time between the phases (no re-warm allowed) and receives the registration; every 4th: an unlinked copy() is built and used between the phases; every 8th: 140 further "
+                    "whose parent is used for the first time between the phases (no re-warm allowed) and receives the registration; every 4th: inspect.signature / __doc__ of the function are read between the phases; every 4th: an unlinked copy() is built and used between the phases; every 8th: 140 further "
                     "subclasses of K0 are handled once each and the first 12 called again",
                     hook_answers="predicates: one solver boolean per (predicate, class); hooks: supertype boolean per class, order chosen among "
                                  "LESS/MORE/NONE/NotImplemented per class",
